@@ -504,7 +504,8 @@ def c02_replay(ctx, rp):
 
 C15_FAMILIES = ["nest", "nest-noname", "nest-multi", "set-width", "coll-set", "attr-count", "group-count", "member-count",
                 "value-len", "name-len", "unterminated", "endcoll-flood", "member-flood", "addl-no-attr",
-                "name-invalid-utf8", "value-invalid-utf8", "member-count-desc", "member-count-shuffled", "attr-count-desc", "wide-then-many"]
+                "name-invalid-utf8", "value-invalid-utf8", "member-count-desc", "member-count-shuffled", "attr-count-desc", "wide-then-many",
+                "set-width-mixed", "member-width-mixed", "set-width-strings"]
 C15_RATIO_LIMIT = 2.6
 
 
@@ -659,6 +660,25 @@ def vnet_replay(ctx, rp):
     return (1 if bad else 0), so, se, secs
 
 
+def c14_build(ctx):
+    vcore_build(ctx)
+    vnet_build(ctx, ["plain"])
+
+
+def c14_steps(ctx):
+    res = [run_monitor(ctx, _bin(ctx, "vcore"), "c14")]
+    wire = vnet_run(ctx, "plain", "c14")
+    res[0]["coverage"]["rule"] = res[0]["coverage"].get("rule", "") + " || " + wire["coverage"].get("rule", "")
+    res.append(wire)
+    return res
+
+
+def c14_replay(ctx, rp):
+    if (rp.get("binary") or "").startswith("vnet"):
+        return vnet_replay(ctx, rp)
+    return vcore_check("c14")["replay"](ctx, rp)
+
+
 def tsan_layer(ctx):
     """C11 thorough: the concurrent-senders workload under ThreadSanitizer (std rebuilt with -Zbuild-std so every lock is instrumented).
     A report counts when one of the two racing accesses is in ipp's own code; races between tokio's reactor and its registrations are
@@ -787,7 +807,7 @@ CHECKS = {
     "C09": vcore_check("c09"),
     "C10": vcore_check("c10"),
     "C13": vcore_check("c13"),
-    "C14": vcore_check("c14"),
+    "C14": {"build": c14_build, "steps": c14_steps, "replay": c14_replay, "level": "exploration"},
     "C15": dict(vcore_check("c15", extra_steps=[c15_cachegrind]), replay=c15_replay),
     "C16": vcore_check("c16"),
     "C17": vcore_check("c17"),
